@@ -32,7 +32,13 @@ class BaseEngine:
             machine=self.sm,
             event=BoundEvent("__initial__", _sm=self.sm),
         )
+        # only the engine's own trigger activates the initial state: an event a user happens to
+        # send under the same name is an ordinary (unknown) event
+        self._initial_trigger = trigger_data
         self.put(trigger_data)
+
+    def _is_initial(self, trigger_data: TriggerData) -> bool:
+        return trigger_data is getattr(self, "_initial_trigger", None)
 
     def _initial_transition(self, trigger_data):
         transition = Transition(State(), self.sm._get_initial_state(), event="__initial__")
